@@ -179,6 +179,18 @@ def run(chk):
             rexprs.append("(nearest_row_wd (O:=F_ops) %s %s, nearest_row (O:=F_ops) %s %s)" % (
                 C.fll(wd[:, 0]), C.fl(xc), C.fll(ms[:, 0]), C.fl(x)))
             rmeta.append((float(x), j, k))
+            if nrow <= (40 if chk.tier == "quick" else 400):
+                # the BH-population shortcut has its own copy of the lifetime-row lookup: its reported age is the lifetime of the
+                # lightest BH progenitor (+0.1) under the row it picked
+                from ssptools.masses import PowerLawIMF
+                with U.fake_ode(lambda t_, y0_: y0_):
+                    pop = emf.InitialBHPopulation.from_IMF(PowerLawIMF([0.1, 0.5, 1.0, 100], [-0.5, -1.3, -2.5], N0=1e5), [1, 1, 4], x, natal_kicks=False)
+                k0 = int(np.argmin(np.abs(ms[:, 0] - x)))
+                a0_, a1_, a2_ = ms[k0, 1:]
+                want_age = a0_ * math.exp(a1_ * (obj.BH_mi.lower + 0.1) ** a2_)
+                if abs(float(pop.age) - want_age) > 1e-12 * want_age:
+                    chk.fail("lifetimes of the nearest tabulated metallicity (initial BH population shortcut)", dict(FeH=x),
+                             dict(age=float(pop.age), expected=float(want_age), nearest_row_FeH=float(ms[k0, 0])))
             fk = m._kick_kw["FeH"]
             ls, neg_h, pos_h = grids["banerjee20"]
             if fk != min(max(x, -neg_h / 100), pos_h / 100):
